@@ -1,7 +1,7 @@
 """C05 — quantize and delay start tracks on the requested grid; updates switch cleanly."""
 from fractions import Fraction
 
-from .. import sched_gen, sched_impl, sched_suite
+from .. import common, sched_gen, sched_impl, sched_suite
 
 PROPERTY = "C05"
 LEAN_MODULE = "IsobarV.Props.C05Interp"
@@ -175,8 +175,90 @@ def interpolation_update_cases(ctx):
                           {"suite": "c05-interp", "case": case, "first_failing_clause": "from that tick on only the new one"})
 
 
+# ---- the grid after a rewind (implementation-only oracle) ---------------------------------------------------------------
+# "for all call times t": t is the timeline's time when schedule()/update() is called — also when that time was rewound
+# (Timeline.reset: t = 0; Timeline.reset_to_beat: t = the nearest whole beat) and is no longer the number of ticks processed.
+
+def rewound_grid_cases(ctx):
+    import math
+    from fractions import Fraction
+    common.ensure_repo_on_path()
+    import isobar as iso
+    from isobar.io.output import OutputDevice
+    r = ctx.rng
+
+    class Rec(OutputDevice):
+        def __init__(self):
+            super().__init__()
+            self.now = 0
+            self.ons = []
+
+        def note_on(self, note=60, velocity=64, channel=0):
+            self.ons.append((self.now, note, channel))
+
+        def note_off(self, note=60, channel=0):
+            pass
+
+    for i in range(ctx.scale(120, 1500)):
+        tpb = r.choice([4, 8, 16, 24, 96, 480])
+        dev = Rec()
+        tl = iso.Timeline(tempo=120, output_device=dev, clock_source=sched_impl.DummyClock(ticks_per_beat=tpb))
+        if r.random() < 0.5:
+            tl.schedule({"note": 10, "duration": r.choice([0.5, 1, 2]), "channel": 1})     # something already playing
+        n1 = r.choice([tpb, 2 * tpb, tpb + tpb // 4, r.randint(1, 5 * tpb), r.randint(1, 5 * tpb)])
+        n2 = r.choice([0, 0, tpb // 4, tpb // 2, r.randint(0, 2 * tpb)])
+        how = r.choice(["reset", "reset", "reset_to_beat", "reset_to_beat", "none"])
+        q = r.choice([0.25, 0.5, 1, 1, 2, 4])
+        d = r.choice([0, 0, 0.25, 0.5, 1])
+        via = r.choice(["schedule", "schedule", "update"])
+        j = 0
+        for _ in range(n1):
+            dev.now = j
+            tl.tick()
+            j += 1
+        t = Fraction(n1, tpb)
+        if how == "reset":
+            tl.reset()
+            t = Fraction(0)
+        elif how == "reset_to_beat":
+            tl.reset_to_beat()
+            t = Fraction(round(n1 / tpb))          # the code's round(): half to even on the float n1 / tpb
+        for _ in range(n2):
+            dev.now = j
+            tl.tick()
+            j += 1
+        t += Fraction(n2, tpb)
+        if abs(float(t) - tl.current_time) > 1e-6:
+            ctx.note("rewound grid: harness lost track of the time (%r vs %r)" % (float(t), tl.current_time))
+            continue
+        fq = Fraction(q)
+        target = fq * math.ceil(t / fq) + Fraction(d)
+        wait = math.ceil((target - t) * tpb)
+        if via == "schedule":
+            tl.schedule({"note": 60, "duration": 1, "channel": 0}, quantize=q, delay=d)
+        else:
+            tr = tl.schedule({"note": 50, "duration": 1000, "channel": 2})
+            tr.update({"note": 60, "duration": 1, "channel": 0}, quantize=q, delay=d)
+        for _ in range(wait + 3):
+            dev.now = j
+            tl.tick()
+            j += 1
+        first = [c[0] for c in dev.ons if c[1] == 60 and c[2] == 0][:1]
+        exp = n1 + n2 + wait
+        case = {"tpb": tpb, "ticks_before": n1, "rewind": how, "ticks_after": n2, "time_at_call_beats": str(t), "quantize": q, "delay": d,
+                "via": via, "expected_first_event_tick": exp}
+        ctx.case(("rewound-grid", repr(sorted(case.items()))), nontrivial=how != "none", validated=False, sample=dict(case, observed=first))
+        ctx.count("rewound-grid:%s" % how)
+        if first != [exp]:
+            ctx.violation("C05:first-event-off-grid-after-rewind",
+                          "%s() at time %s beats (tpb %d, %d ticks processed, rewind %s) with quantize=%s delay=%s: first event at tick %s, "
+                          "the grid of the timeline's time says tick %d" % (via, t, tpb, n1 + n2, how, q, d, first, exp),
+                          {"suite": "c05-rewound", "case": case, "first_failing_clause": "first tick at or after q*ceil(t/q)+d, t the timeline's time at the call"})
+
+
 def run(ctx):
     interpolation_update_cases(ctx)
+    rewound_grid_cases(ctx)
     sched_suite.run_suite(ctx, PROF, ctx.scale(2000, 120000), "c05", [], nontrivial, signature_of)
     for i in range(ctx.scale(800, 40000)):
         grid_case(ctx, i)
